@@ -22,6 +22,7 @@ type runner struct {
 	m        *vh.Model
 	shrunk   map[string]int // divergence kind → violations shrunk so far
 	failures int            // violating or mismatching programs so far
+	longFull int            // long-running programs also evaluated in full by the model so far
 }
 
 // after this many failing programs the remaining generated programs are skipped: the check has
@@ -94,6 +95,9 @@ func divergence(gotFinal, gotTrace, expFinal, expTrace string) string {
 
 func features(c Case) string {
 	set := map[string]bool{}
+	if c.Long {
+		set["long-run"] = true
+	}
 	for _, b := range c.blocks() {
 		featuresOf(b, set)
 	}
@@ -124,6 +128,9 @@ func featuresOf(b []Stmt, set map[string]bool) {
 			set["loop"] = true
 		case "f":
 			set["call"] = true
+			if s.Via != "" {
+				set[viaName(s.Via)] = true
+			}
 		case "y":
 			if s.HasFin {
 				set["finally"] = true
@@ -138,6 +145,9 @@ func featuresOf(b []Stmt, set map[string]bool) {
 func violates(c Case) (string, implRes, string, string) {
 	impl := runScript(c.script())
 	ef, et := reference(c)
+	if c.Long {
+		return longDivergence(c, impl.Final, impl.Trace, ef, et), impl, ef, et
+	}
 	return divergence(impl.Final, impl.Trace, ef, et), impl, ef, et
 }
 
@@ -174,9 +184,21 @@ func candidates(b []Stmt) [][]Stmt {
 			if s.K == "l" || s.K == "y" {
 				res = append(res, rebuild(splice(s.Body)))
 			}
-			if s.K == "l" && s.N > 1 {
+			if s.K == "l" && s.N > 8 {
+				// a long-running loop: fewer iterations first (every later candidate runs faster)
+				for _, n := range []int{s.N / 2, s.N - s.N/8, s.N - 1} {
+					ns := s
+					ns.N = n
+					res = append(res, rebuild(with(ns)))
+				}
+			} else if s.K == "l" && s.N > 1 {
 				ns := s
 				ns.N = 1
+				res = append(res, rebuild(with(ns)))
+			}
+			if s.K == "f" && s.Via != "" {
+				ns := s
+				ns.Via = ""
 				res = append(res, rebuild(with(ns)))
 			}
 			if s.K == "y" {
@@ -271,6 +293,9 @@ func caseCandidates(c Case) []Case {
 		if validJumps(cand, false) {
 			nc := c
 			nc.Prog = cand
+			if c.Long && !nc.longShape() {
+				continue // a long-running program stays one loop whose body starts with the iteration marker
+			}
 			res = append(res, nc)
 		}
 	}
@@ -320,8 +345,12 @@ func (r *runner) check(c Case, replayMode bool) {
 		r.c.Hit("skipped-after-flood")
 		return
 	}
+	if c.Long {
+		r.checkLong(c, replayMode)
+		return
+	}
 	ef, et, steps, pendingCalls := referenceFull(c)
-	if steps > stepLimit && !replayMode {
+	if steps > c.stepLimit() && !replayMode {
 		r.c.Hit("skipped-too-long")
 		return
 	}
@@ -495,6 +524,16 @@ func Run(c *vh.Ctx) {
 		r.check(randRecCase(c.Rand), false)
 	}
 	c.HitN("stream:random-reentrant", nrr)
+
+	nl := 0
+	enumLong(c.Thorough(), func(cs Case) { r.check(cs, false); nl++ })
+	c.HitN("stream:long-run", nl)
+	c.Res.ExhaustiveWhat += fmt.Sprintf("; long-running: one loop of 2 000–2 400 (thorough: some 6 000) iterations of a closed try statement that an exception of the caught class / of another class / of a subclass, a host panic, a return or nothing leaves through calls %s deep — functions, methods, static methods, closures, constructors, uniform and mixed — with nothing / try-finally / catch-rethrow / catch-throw-new on the way, and break / continue leaving the try block or the handler: %d programs, every iteration compared", map[bool]string{false: "1, 3 and 5", true: "1, 2, 3 and 5"}[c.Thorough()], nl)
+	nrl := c.N(40, 600)
+	for i := 0; i < nrl; i++ {
+		r.check(randLongCase(c.Rand), false)
+	}
+	c.HitN("stream:random-long-run", nrl)
 
 	if r.failures >= floodLimit {
 		c.Note("more than %d failing programs: the remaining generated programs were skipped", floodLimit)
